@@ -427,9 +427,18 @@ def run_site(c):
     return res
 
 def main_():
+    import resource, time
+    try:        # a broken builder that keeps state can grow without bound: fail the case, not the machine
+        resource.setrlimit(resource.RLIMIT_AS, (6 << 30, 6 << 30))
+    except (ValueError, OSError):
+        pass
+    deadline = time.time() + float(os.environ.get('C06_IMPL_DEADLINE', '420'))
     payload = json.load(open(sys.argv[1]))
     out = []
     for c in payload['cases']:
+        if time.time() > deadline:
+            out.append({'crash': 'runner deadline exceeded before this case (the implementation became pathologically slow)'})
+            continue
         try:
             if c['kind'] == 'parse':
                 out.append({'parse': parse_packet(bytes.fromhex(c['dgram']))})
